@@ -1249,10 +1249,12 @@ def docs_separator_rule(syn, crate, prop, rule="C15.R4"):
     for e in S.events(fn, "macro"):
         if e["name"] == "format" and any(c["k"] == "match" and S.squash(c["scrut"]) == "doc_attrs.len()" and S.squash(c["pat"]) == "1" for c in e["ctx"]):
             lit = S.unquote(e["tokens"][0]) if e["tokens"] and isinstance(e["tokens"][0], str) else ""
-            if lit.startswith("/**{}"):
+            if re.match(r"^/\*\*\{", lit):
                 verbatim.append(e["line"])
     sanit = [e for e in S.events(fn, "mcall") if e["method"] in ("lines", "split", "replace") and "\\n\\n" in " ".join(e["args"])]
     r.inst(producer="utils::parse_docs", verbatim_block_doc_at=verbatim, blank_line_sanitiser=bool(sanit))
+    if not verbatim and not sanit:
+        r.fail(prop, "anchor-missing block doc wrapper", "cannot find the block-doc branch of parse_docs", fn["file"], fn["line"])
     if splits and verbatim and not sanit:
         r.fail(prop, "merge-separator-unenforced parse_docs -> merge",
                "a block doc comment is copied verbatim (line %s) while merge() cuts declarations at blank lines (line %s): a blank line inside /** .. */ splits the declaration when a second type is merged into the file" % (verbatim, splits),
